@@ -36,25 +36,32 @@ type Scenario struct {
 //	       connection, 2 = an error) instead of parking until a fin step.
 //	fin    the I-th dial function that is parked returns: OK = a fresh idle
 //	       connection, otherwise an error. G: arm conn.dial.result first.
-//	rel    the I-th unreleased handle is released (done()).
+//	rel    the I-th unreleased handle is released (done()). All: then every
+//	       other unreleased handle of the same connection, one call at a time.
 //	rel2   the done func of the I-th already released handle is called again.
 //	relf   the done func returned by the I-th failed request is called.
 //	cancel cancel the context of the I-th request with an uncancelled context of
 //	       its own (requests that are still blocked are preferred). G: arm
 //	       conn.dial.result for its address first if it originated the pending dial.
 //	open   release the I-th goroutine parked at a gate.
+//
+// An acq step that finds every thread inside a call acts as open (if something
+// is parked at a gate) or else as fin; a rel step that finds no unreleased
+// handle acts as fin (ok) or else as open. The history printed with a failure
+// shows what every step did.
 type Step struct {
-	K  string `json:"k"`
-	T  int    `json:"t,omitempty"`
-	A  int    `json:"a,omitempty"`
-	C  bool   `json:"c,omitempty"`
-	P  bool   `json:"p,omitempty"`
-	B  bool   `json:"b,omitempty"`
-	G  bool   `json:"g,omitempty"`
-	D  bool   `json:"d,omitempty"`
-	F  int    `json:"f,omitempty"`
-	OK bool   `json:"ok,omitempty"`
-	I  int    `json:"i,omitempty"`
+	K   string `json:"k"`
+	T   int    `json:"t,omitempty"`
+	A   int    `json:"a,omitempty"`
+	C   bool   `json:"c,omitempty"`
+	P   bool   `json:"p,omitempty"`
+	B   bool   `json:"b,omitempty"`
+	G   bool   `json:"g,omitempty"`
+	D   bool   `json:"d,omitempty"`
+	F   int    `json:"f,omitempty"`
+	OK  bool   `json:"ok,omitempty"`
+	All bool   `json:"all,omitempty"`
+	I   int    `json:"i,omitempty"`
 }
 
 func (s Step) String() string {
@@ -98,6 +105,9 @@ func (s Step) String() string {
 		}
 	default:
 		f = append(f, fmt.Sprintf("%s #%d", s.K, s.I))
+		if s.All {
+			f = append(f, "all-holders")
+		}
 	}
 	return strings.Join(f, " ")
 }
